@@ -393,7 +393,7 @@ def _prepare_state(s, rng, which):
         for _ in range(4):
             s.prov(40, 0)
         s.decap("h:a00a01001008006162636465")          # first, frag id 1, broadcast, total len 16
-        s.decap("h:800f0200200800414243444546aabbcc")  # first, frag id 2, 6-byte label
+        s.decap("h:800e0200200800414243444546aabbcc")  # first, frag id 2, 6-byte label
     elif which == "full":
         s.dec_new(1, 8, None)
         s.prov(8, 0)
@@ -680,14 +680,14 @@ def suite_states(rng, tier):
                 for _ in range(k):
                     s.prov(6, 0)
                 if name == "inter-ok-then-end-badcrc":
-                    s.decap("h:300301" + "dd")
+                    s.decap("h:300201" + "dd")
                     s.decap("h:700701" + "eeff" + "00000000")
                 elif name in ("first-oversize-alias-id", "first-ok-alias-id"):
                     s.decap(trig % (1 + slots))
                 else:
                     s.decap(trig)
                 s.dec_newpdu()
-                s.decap("h:300301" + "99")
+                s.decap("h:300201" + "99")
                 out.append(s)
     # every kind of rejected start/complete packet of C08's quantifier, well formed apart from the reason of
     # its rejection, arriving while storages are free: each rejection must leave every storage where it was
@@ -749,14 +749,14 @@ def suite_states(rng, tier):
 
 # ------------------------------------------------------------------------------------------------ faults
 
-def _train(s, rng, pdu, fid, pt, label, first_buf, frag_bufs):
+def _train(s, rng, pdu, fid, pt, label, first_buf, frag_bufs, exts=None):
     """emit a whole fragmented transfer into registers without feeding it; returns encap op indices"""
     # the registers are emptied first: continuation calls made after the train is finished are no operations
     # (bad-op) and must leave an EMPTY register behind, so that `walk p:1+p:2+…` over all of them stays valid
     regs = [s.reg() for _ in range(1 + len(frag_bufs))]
     for r in regs:
         s.setreg(r, "-")
-    idx = [s.encap(pdu, fid, pt, label, bs_zero(first_buf), reg=regs[0])]
+    idx = [s.encap(pdu, fid, pt, label, bs_zero(first_buf), reg=regs[0], exts=exts)]
     chain = regs[0]
     for bl, r in zip(frag_bufs, regs[1:]):
         idx.append(s.encap_frag(pdu, chain, bs_zero(bl), reg=r, cout=chain))
@@ -945,7 +945,14 @@ def suite_merge(rng, tier):
                     first = 7 + lab.wire_len() + 2
                     per = max(1, (pl - 2) // max(1, nf - 1))
                     bufs = [3 + per] * (nf - 2) + [64]
-                    tr = _train(s, rng, bs_gen(500 + n * 5 + t, pl), ids[t], 0x0800 + t, lab, first, bufs)
+                    # one session in three: every train carries its own chain of optional header extensions, which
+                    # must come back with that train's statuses and with no other's
+                    exts = None
+                    if n % 3 == 0:
+                        exts = [[(0x0301, bytes([t + 1] * 4))], [(0x0101 + t, b""), (0x0203, bytes([0xA0 + t] * 2))],
+                                [(0x0501, bytes([0x50 + t] * 8))], [(0x0402, bytes(6)), (0x0102, b"")]][t % 4]
+                        first += sum(2 + len(d) for _, d in exts)
+                    tr = _train(s, rng, bs_gen(500 + n * 5 + t, pl), ids[t], 0x0800 + t, lab, first, bufs, exts=exts)
                     trains.append(tr)
                 s.trains = trains
                 ptr = [0] * len(shape)
@@ -1486,6 +1493,11 @@ def suite_utils(rng, tier):
                 continue
             total = pl + rng.randrange(4, 200)      # at least 4 more bytes, else the PDU fits a complete packet
             tl = 2 + ll + total
+            if k % 5 == 4:
+                # the total length is a field of its own: any value, also smaller than what the fragment carries
+                tl = rng.choice([0, 1, ll, ll + 1, ll + 2, pl, pl + 1, max(0, pl + ll), pl + ll + 1, pl + ll + 2, 65535])
+                both("F", "%d %d %d %04x %s %s" % (gl, fid, tl, pt, lab.tok(), pdu.expr), (gl, fid, tl, pt, lab, pdu))
+                continue
             a = both("F", "%d %d %d %04x %s %s" % (gl, fid, tl, pt, lab.tok(), pdu.expr), (gl, fid, tl, pt, lab, pdu))
             if lab.kind != "U" and pl < total:
                 # the encapsulator emits the same bytes for a PDU of `total` bytes whose first pl bytes are pdu
